@@ -443,6 +443,8 @@ func ExtractMsg(m util.Message) (*wire.N, error) {
 	return n, nil
 }
 
+func SafeMarshal(m util.Message) ([]byte, error) { return safeMarshal(m) }
+
 func safeMarshal(m util.Message) (b []byte, err error) {
 	defer func() {
 		if r := recover(); r != nil {
